@@ -958,6 +958,16 @@ func (r *run) c11Frame(m cemi.Message, l *cemi.LData) {
 	want := specLData(uint8(m.MessageCode()), l)
 	if !bytes.Equal(buf, want) {
 		r.violation("layout-encode", op, "specified layout "+ktext.Hex(want)+" | encoder wrote "+ktext.Hex(buf))
+	} else {
+		// the layout is what the encoder WRITES, not what a zeroed buffer happens to hold: the same
+		// message into a buffer that held something else before
+		used := make([]byte, size)
+		for i := range used {
+			used[i] = 0xA5
+		}
+		if d := guarded(func() decOut { cemi.Pack(used, m); return decOut{class: "ok"} }); d.class == "ok" && !bytes.Equal(used, want) {
+			r.violation("layout-encode", op, "into a buffer that held 0xA5 octets before: specified layout "+ktext.Hex(want)+" | buffer afterwards "+ktext.Hex(used))
+		}
 	}
 	d := decodeCemi(want)
 	op2 := "decc " + ktext.Hex(want) + " -"
